@@ -83,15 +83,18 @@ FollowOK(cfg, cs, follow, i) ==
           /\ RespMatches(o.resp, f.resp)
           /\ FollowOK(cfg, o.cs, follow, i + 1)
 
-C05_Round(cfg, seedcs, q, resp, final, follow) ==
+(* mayCommit: the failing step may have been the commit itself after it took effect (or the fault was
+   injected below the storage trait, where that cannot be told) - only then may an error leave the
+   state as after the request *)
+C05_Round(cfg, seedcs, q, resp, final, follow, mayCommit) ==
   LET o == UnitApply(cfg, seedcs, q, <<1, "m">>) IN
   /\ resp.kind \notin {"panic", "timeout", "none"}
   /\ resp.kind # "error" => (RespMatches(o.resp, resp) /\ final = o.cs)
   /\ resp.kind = "error" =>
         \/ final = seedcs
-        \/ final = o.cs
-        \* the acknowledgement was lost: the id the server chose is the new latest
-        \/ final = UnitApply(cfg, seedcs, [q EXCEPT !.vid = final.latest], <<1, "m">>).cs
+        \* only the acknowledgement was lost (the id the server chose is the new latest)
+        \/ (mayCommit /\ final = o.cs)
+        \/ (mayCommit /\ final = UnitApply(cfg, seedcs, [q EXCEPT !.vid = final.latest], <<1, "m">>).cs)
         \/ (q.op = "AddVersion" /\ q.lvl = "http" /\ final = [seedcs EXCEPT !.exists = TRUE])
   /\ FollowOK(cfg, final, follow, 1)
 
